@@ -99,12 +99,16 @@ static void ev(const std::string& what) {
 // the item type
 // ---------------------------------------------------------------------------------------------------------------
 static const unsigned ALIVE = 0xA11FEu, DEAD = 0xDEADu;
+struct PoisonedCopy {};
+static const int POISON0 = 500000;                   // fed ids >= POISON0: the item's copy / move constructor throws (the feeder::add fails, the body goes on)
 struct Item {
     int id;
     unsigned magic;
+    bool poison = false;
+    static int id_of(const Item& o) { if (o.poison) throw PoisonedCopy(); return o.id; }
     explicit Item(int i) : id(i), magic(ALIVE) { items_live++; }
-    Item(const Item& o) : id(o.id), magic(ALIVE) { items_live++; note_copy(o); }
-    Item(Item&& o) : id(o.id), magic(ALIVE) { items_live++; note_copy(o); }
+    Item(const Item& o) : id(id_of(o)), magic(ALIVE) { items_live++; note_copy(o); }
+    Item(Item&& o) : id(id_of(o)), magic(ALIVE) { items_live++; note_copy(o); }
     Item& operator=(const Item&) = delete;
     ~Item() {
         if (magic != ALIVE) { double_destroy++; problem("item " + std::to_string(id) + " destroyed twice"); return; }
@@ -190,7 +194,9 @@ struct Body {
             bool mv = false;
             for (int c : f->second) {
                 Item child(c);
-                if (mv) fd.add(std::move(child)); else fd.add(child);
+                if (c >= POISON0) child.poison = true;
+                try { if (mv) fd.add(std::move(child)); else fd.add(child); }
+                catch (const PoisonedCopy&) { ev("addthrow " + std::to_string(c)); }      // a failed add changes nothing; the loop goes on
                 mv = !mv;
                 mk::yield();
             }
@@ -431,7 +437,7 @@ int main() {
             // monitors
             std::set<int> all(input_ids.begin(), input_ids.end());
             std::vector<int> todo(input_ids.begin(), input_ids.end());
-            while (!todo.empty()) { int x = todo.back(); todo.pop_back(); auto f = feeds.find(x); if (f != feeds.end()) for (int ch : f->second) if (all.insert(ch).second) todo.push_back(ch); }
+            while (!todo.empty()) { int x = todo.back(); todo.pop_back(); auto f = feeds.find(x); if (f != feeds.end()) for (int ch : f->second) if (ch < POISON0 && all.insert(ch).second) todo.push_back(ch); }      // (a poisoned child is never added: its body must not run)
             std::string badc = "-";
             for (int x : all) if (body_count[x] != 1) { badc = std::to_string(x) + ":" + std::to_string(body_count[x]); break; }
             for (auto& kv : body_count) if (!all.count(kv.first) && kv.second) { badc = std::to_string(kv.first) + ":" + std::to_string(kv.second) + ":unknown-item"; break; }
